@@ -38,7 +38,7 @@ CONSTANTS Input,        \* sequence of abstract byte ids, e.g. <<1,2,3>>
           PieceLen,     \* abstract bytes per output piece (reader mode: a piece can be split over Reads)
           MaxBuf,       \* consumer buffer sizes 1..MaxBuf
           Modes,        \* subset of {"writer","response","reader","plain","bytes"}
-          PatchCL,      \* TRUE: responseWriter.Write drops Content-Length on the first write (proposed patch)
+          PatchCL,      \* TRUE: responseWriter.Write drops Content-Length when it selects a minifier (the code since commit c60263b); FALSE: before
           Mut,          \* "none", or a deliberately wrong design used to show that the invariants bite
           FullProduct,  \* TRUE: full product of the response-mode choices; FALSE: header choices and fault/gate choices factored
           RecordHist,   \* TRUE: hist records the action labels (generation); FALSE for model checking
@@ -406,14 +406,10 @@ CloseReturned == <>(cst = "done")
 
 \* D => A: the property relation (StreamRel), run as a monitor over the events of every behaviour of the design,
 \* never flags anything - in particular no clause of the trace specification rejects an interleaving that the
-\* correct design can produce.  (The design as implemented keeps the stale Content-Length: that clause is the
-\* known finding and is tolerated unless PatchCL.)
-CLGClause == "ContentLengthGone: response committed with a Content-Length that differs from the body"
-Tolerated == IF PatchCL THEN {} ELSE {CLGClause}
-MonitorQuiet == Monitor => (mon.bad \ Tolerated) = {}
-MonitorFinal == (Monitor /\ Terminated /\ mode # "plain") => (FinalBad(mon.st, Hdr) \ Tolerated) = {}
-\* the design as implemented must be flagged for the stale Content-Length (used to show that the model has the finding)
-MonitorStrict == (Monitor /\ Terminated /\ mode # "plain") => FinalBad(mon.st, Hdr) = {}
+\* correct design can produce.  (With PatchCL = FALSE - the code before commit c60263b - the stale Content-Length
+\* is flagged: Stream_mut_nodelcl.cfg expects exactly that.)
+MonitorQuiet == Monitor => mon.bad = {}
+MonitorFinal == (Monitor /\ Terminated /\ mode # "plain") => FinalBad(mon.st, Hdr) = {}
 
 \* generation: one line per initial state (what the harness controls)
 EmitInit == PrintT(<<"INIT", ToJson([mode |-> mode, cfg |-> cfg, sizes |-> [i \in 1..Len(chunks) |-> Len(chunks[i])]])>>)
